@@ -3,7 +3,7 @@
 (* ({a, args, res, post} per ABCI call, written by the Go harness) is judged *)
 (* against Chain!Step from the OBSERVED pre-state (DESIGN 5.3), and every    *)
 (* property monitor is evaluated on every observed state / step pair.        *)
-EXTENDS Props, Json, IOUtils
+EXTENDS Abci, Json, IOUtils
 
 Trace == ndJsonDeserialize(IOEnv.TRACE_FILE)
 
@@ -154,15 +154,27 @@ ReplicaMonitors(ev) ==
 Judge(i) ==
   LET ev  == Trace[i]
       pre == Trace[i - 1].post @@ [aux |-> aux]
-      exp == IF ev.a = "Restart" THEN Ok(Trace[snap.line].post @@ [aux |-> snap.aux]) ELSE Step(pre, ev.args)
+      exp == IF ev.a = "Restart" THEN Ok(Trace[snap.line].post @@ [aux |-> snap.aux])
+             ELSE IF ev.a = "ExportImport" THEN (IF ImportSucceeds(pre) THEN Ok(ImportExport(pre)) ELSE Panic(pre))
+             ELSE Step(pre, ev.args)
       evm == ev.args @@ [a |-> ev.a]
-  IN UNION { Tag(i, "L2", (IF ev.a = "Restart" THEN {"C01"} ELSE PathProps(d, ev)), d) : d \in StateDiff(exp.st, ev.post) }
+  IN UNION { Tag(i, "L2", (IF ev.a = "Restart" THEN {"C01"} ELSE IF ev.a = "ExportImport" THEN {"C15"} ELSE PathProps(d, ev)), d)
+               : d \in (IF ev.a = "ExportImport" /\ ~ev.res.ok THEN {} ELSE StateDiff(exp.st, ev.post)) }
+     \cup (IF ev.a = "ExportImport"
+           THEN (IF ~ev.res.exportOk THEN {<<i, "L1", "C15", "ExportFailed">>} ELSE {})
+                \cup (IF ev.res.importPanic THEN {<<i, "L1", "C15", "ImportPanics">>} ELSE {})
+                \cup (IF ev.res.ok /\ ~ev.res.invOk THEN {<<i, "L1", "C15", "InvariantBrokenAfterImport">>} ELSE {})
+                \cup (IF ev.res.ok /\ ~ev.res.idempotent THEN {<<i, "L1", "C15", "SecondExportDiffers">>} ELSE {})
+           ELSE {})
+     \cup (IF "postOrig" \in DOMAIN ev /\ ev.a # "ExportImport" /\ ~Bisimilar(ev.post, ev.postOrig)
+           THEN {<<i, "L1", "C15", "ReimportedChainDiverges">>} ELSE {})
+     \cup (IF "resOrig" \in DOMAIN ev /\ ev.resOrig.ok # ev.res.ok THEN {<<i, "L1", "C15", "ReimportedChainResultDiffers">>} ELSE {})
      \cup { <<i, "L1", m[1], m[2]>> : m \in ReplicaMonitors(ev) }
      \cup (IF exp.ok # ev.res.ok THEN {<<i, "L2", "note", <<"res.ok", exp.ok>> >>} ELSE {})
      \cup (IF exp.ok /\ ev.res.ok /\ ev.a = "DeliverTx"
            THEN UNION { Tag(i, "L2", PathProps(d, ev), d) : d \in OutDiff(exp.out, ev.res.outs) } ELSE {})
      \cup { <<i, "L1", m[1], m[2]>> : m \in StateMonitors(ev.post) }
-     \cup (IF ev.a = "Restart" THEN {}    \* not a transition of the chain: memory is replaced by the durable state
+     \cup (IF ev.a \in {"Restart", "ExportImport"} THEN {}    \* not a transition of the chain
            ELSE { <<i, "L1", m[1], m[2]>> : m \in StepMonitors(Trace[i - 1].post, ev.post, evm) })
      \cup { <<i, "L1", m[1], m[2]>> : m \in HistMonitors(ev.post, exp.st.aux) }
      \cup (IF ~FailedTxKeepsState(Trace[i - 1].post, ev.post, evm, ev.res.ok) THEN {<<i, "L1", "C14", "FailedTxKeepsState">>} ELSE {})
@@ -199,6 +211,7 @@ TraceNext ==
           /\ snap' = [line |-> l, aux |-> InitAux]
           /\ bad' = bad \cup { <<l, "L1", m[1], m[2]>> : m \in StateMonitors(Trace[l].post) }
      ELSE /\ aux' = IF Trace[l].a = "Restart" THEN snap.aux
+                    ELSE IF Trace[l].a = "ExportImport" THEN aux
                     ELSE Step(Trace[l - 1].post @@ [aux |-> aux], Trace[l].args).st.aux
           /\ snap' = IF Trace[l].a = "Commit" THEN [line |-> l, aux |-> aux'] ELSE snap
           /\ bad' = bad \cup Judge(l)
